@@ -130,13 +130,7 @@ def _axis(stmts, vec=(), sqrt=False):
         out += r if isinstance(r, list) else [r]
     for s in out:
         ast.fix_missing_locations(s)
-    return _masked(out)
-
-
-def _masked(stmts):
-    """out = np.zeros(..); out[m] = a[m]; out[~m] = b[~m]   (already axis-rewritten: out = np.zeros(..); out = a; out = b
-    cannot be told apart, so this pattern is matched BEFORE the rewrite - see _premask)"""
-    return stmts
+    return out
 
 
 def _premask(stmts):
